@@ -17,7 +17,7 @@ from .source import AnalysisError
 IGNORED_CALLS = {'print'}
 
 
-MESSAGE_CALLS = {'warn', 'warnings.warn'}
+MESSAGE_CALLS = {'warn', 'warnings.warn', 'stream.error', 'self.error'}
 
 
 def _demsg(k):
